@@ -1,6 +1,8 @@
 from cacheprops import CACHE_TB, CACHE_ASSUMPTIONS, ca_component
 from c15_latency_part import LAT_PROP
 
+import facts
+
 ID = "C15"
 PROP = {
     "modules": ["Gnmi.Props.C15"],
@@ -27,3 +29,4 @@ PROP["theorems"] += LAT_PROP["theorems"]
 PROP["components"] += LAT_PROP["components"]
 PROP["trusted_base"] = PROP["trusted_base"] + LAT_PROP["trusted_base"]
 PROP["assumptions"] = PROP["assumptions"] + LAT_PROP["assumptions"]
+PROP.setdefault("pre", []).append(facts.make_step(['cache.Target.syncts.lockset']))
